@@ -12,6 +12,9 @@ ROOT = os.path.dirname(os.path.abspath(__file__))
 WORK = os.path.join(ROOT, ".work")
 COQ = os.path.join(ROOT, "coq")
 REPO = os.environ.get("VERIF_REPO", "/repo")
+# binaries built against another tree than /repo (VERIF_REPO) get their own names: two checks running at the same
+# time against different trees must not hand each other their harness
+REPO_TAG = "" if REPO == "/repo" else "-" + hashlib.sha1(REPO.encode()).hexdigest()[:8]
 GOENV = dict(os.environ, GOFLAGS="-mod=mod", GOPROXY="off", GOSUMDB="off", GOTOOLCHAIN="local",
              GOCACHE=os.environ.get("GOCACHE", os.path.expanduser("~/.cache/go-build")))
 NCPU = os.cpu_count() or 4
@@ -166,7 +169,7 @@ def eval_shard(prop, kmod, idx, terms, outdir, extra_imports="", explain=False):
 def build_harness():
     """Builds the Go harness against /repo's current working tree, tag verif. Returns (ok, output, binary)."""
     with Lock("harness"):
-        bdir = os.path.join(WORK, "harness-build")
+        bdir = os.path.join(WORK, "harness-build" + REPO_TAG)
         os.makedirs(bdir, exist_ok=True)
         for f in glob.glob(os.path.join(bdir, "*.go")):
             os.remove(f)
@@ -176,7 +179,7 @@ def build_harness():
         gm = os.path.join(bdir, "go.mod")
         txt = open(gm).read().replace("github.com/MichaelMure/git-bug => /repo", "github.com/MichaelMure/git-bug => " + REPO)
         open(gm, "w").write(txt)
-        binp = os.path.join(WORK, "bin", "harness")
+        binp = os.path.join(WORK, "bin", "harness" + REPO_TAG)
         os.makedirs(os.path.dirname(binp), exist_ok=True)
         rc, out = sh(["timeout", "1200", "go", "build", "-tags", "verif", "-o", binp, "."], cwd=bdir, env=GOENV)
         return rc == 0, out, binp
@@ -185,7 +188,7 @@ def build_harness():
 def build_gitbug():
     """Builds the git-bug CLI from /repo's working tree (used by process-level checks)."""
     with Lock("gitbug"):
-        binp = os.path.join(WORK, "bin", "git-bug")
+        binp = os.path.join(WORK, "bin", "git-bug" + REPO_TAG)
         rc, out = sh(["timeout", "1200", "go", "build", "-tags", "verif", "-o", binp, "."], cwd=REPO, env=GOENV)
         return rc == 0, out, binp
 
